@@ -18,7 +18,7 @@ ASSUMPTIONS = ["base arguments < 4, rank arguments < 4^K", "external code does n
 
 def run(F, rep):
     rep.engines.update(["E2-BV", "E2-DT", "E1"])
-    common.kmer_floor(F, rep)
+    rep.run(common.kmer_floor, F, rep)
     for adt in structural.KMER_ADTS:
         structural.check_derives(F, rep, "C11.derive", adt,
                                  ["std::cmp::PartialEq", "std::cmp::Eq", "std::cmp::PartialOrd", "std::cmp::Ord", "std::hash::Hash"])
@@ -28,8 +28,8 @@ def run(F, rep):
         else:
             rep.holds("C11.derive", adt + "/field-order", "storage is the first (and only non-zero-sized) field")
     for ty in common.kmer_type_names(F):
-        lemmas.eq_ord_lemmas(F, rep, ty)
+        rep.run(lemmas.eq_ord_lemmas, F, rep, ty)
     # layout + padding preservation by every writer
-    lemmas.ladder_lemmas(F, rep)
-    common.run_kmer_lemmas(F, rep, {"empty", "get", "set", "slice", "rc", "ext", "rank"})
-    structural.kmer_storage_writers(F, rep)
+    rep.run(lemmas.ladder_lemmas, F, rep)
+    rep.run(common.run_kmer_lemmas, F, rep, {"empty", "get", "set", "slice", "rc", "ext", "rank"})
+    rep.run(structural.kmer_storage_writers, F, rep)
